@@ -1,3 +1,5 @@
+import Clover.Proofs.UnmarshalRename
+import Clover.Proofs.KindInvariance
 import Clover.Model.GoVal
 import Clover.Proofs.Paths
 /-! # C18 — Go values are normalised to canonical types deterministically
@@ -92,5 +94,43 @@ theorem get_set_other (d : Doc) (p q : Bytes) (v : Value) (h : Unrelated (splitD
     (d.set p v).get q = d.get q ∧ (d.set p v).has q = d.has q := by
   have := getPath_setPath_other d (splitDots p) (splitDots q) h v
   simp [Doc.set, Doc.get, Doc.has, this]
+
+end CV.Props.C18
+
+namespace CV.Props.C18
+open CV
+
+/-- **`Document.Unmarshal` puts every field's value under the name `encoding/json` reads it from**
+    (`Model/Unmarshal.lean` = `createRenameMap` / `rename` / `renameMapKeys`, validated against the real
+    functions through a hook on every run): for a struct whose stored names (clover tag or Go name)
+    are distinct and whose read names (json tag or Go name) are distinct, and a document shaped after it,
+    the value stored under a field's clover name is found under its json/Go name after the renaming —
+    all keys move simultaneously, so a struct with swapped tags (`A clover:"B"`, `B clover:"A"`) works … -/
+theorem unmarshal_renames_every_field (fs : List RField) (hok : FieldsOK fs) (d : Doc) (hd : DocFits fs d)
+    (f : RField) (hf : f ∈ fs) :
+    lookupKey (RField.read f) (renameMapKeys (.struct fs) d) = (lookupKey (RField.stored f) d).map (renameVal f.2.2.2) :=
+  lookupKey_renameMapKeys_field fs hok d hd f hf
+
+/-- … and nested structs are renamed by the field's TYPE, under the key the field has after the
+    renaming — also when the target's field is a nil pointer or carries a json tag (the two repaired
+    defects F32/F33), at every depth. -/
+theorem unmarshal_renames_nested (fs : List RField) (hok : FieldsOK fs) (d : Doc) (hd : DocFits fs d)
+    (g c j : Bytes) (sub : List RField) (hf : (g, c, j, RType.struct sub) ∈ fs) (m : Doc)
+    (hm : lookupKey (fromName g c) d = some (.obj m)) :
+    lookupKey (toName g j) (renameMapKeys (.struct fs) d) = some (.obj (renameMapKeys (.struct sub) m)) :=
+  renameMapKeys_nested fs hok d hd g c j sub hf m hm
+
+theorem unmarshal_renames_along_paths (p : List RField) (T : RType) (f : RField) (d : Doc) (hT : RType.OK T)
+    (hp : PathIn T (f :: p)) (hd : DocFitsAlong T (f :: p) d) :
+    getPath (renameMapKeys T d) ((f :: p).map RField.read) =
+      (getPath d ((f :: p).map RField.stored)).map (renameVal (lastType f p)) :=
+  getPath_renameMapKeys p T f d hT hp hd
+
+/-- **The same number supplied in any Go numeric kind normalises to values that compare equal to
+    everything in the same way** (C16's literal-kind invariance, through this model of `Normalize`). -/
+theorem go_kinds_normalise_to_the_same_number (n : Nat) (hn : n ≤ 2^53) :
+    ∃ a b c, normalize (.int (n : Int)) = .ok a ∧ normalize (.uint n) = .ok b ∧
+      normalize (.float (F64.ofNatMag n)) = .ok c ∧ SameNumber a b ∧ SameNumber a c ∧ SameNumber b c :=
+  normalize_kinds_sameNumber n hn
 
 end CV.Props.C18
